@@ -44,6 +44,7 @@ struct Outcome {
 
 std::string g_errfile;
 int g_cpu_limit = 20, g_wall_limit = 300;
+double g_max_shrink_s = 150;   // wall-clock bound on the shrinking phase (the current best case is kept)
 long g_max_shrink = 1200;   // bound on shrink steps (each is a forked execution); the current best is kept when it is hit
 
 std::string slurp(const std::string &path) {
@@ -313,6 +314,7 @@ int main(int argc, char **argv) {
     g_errfile = replayDir + "/.stderr." + std::to_string(getpid());
     Stats st;
     bool failing = false;           // set once the first failure was seen: later evaluations are shrink steps
+    std::chrono::steady_clock::time_point failT0{};
     Case lastFail; Outcome lastOut; bool haveFail = false;
     auto t0 = std::chrono::steady_clock::now();
 
@@ -320,6 +322,7 @@ int main(int argc, char **argv) {
         Case c = *gen;
         c.prop = prop;
         if (failing && st.shrink_evals >= g_max_shrink) return;   // stop shrinking: reject every further candidate
+        if (failing && std::chrono::duration<double>(std::chrono::steady_clock::now() - failT0).count() > g_max_shrink_s) return;   // ... also when shrinking takes too long (huge cases)
         if (failing && lastOut.cls == "HANG" && st.shrink_evals >= 12) return;   // every step of a hanging case costs the full CPU budget
         if (st.timeouts >= 5) { ++st.labels["skipped_after_repeated_timeouts"]; return; }   // the box is overloaded or the tree hangs: inconclusive, stop burning time
         Outcome o = run_forked(c);
@@ -330,6 +333,7 @@ int main(int argc, char **argv) {
             for (auto &k : known) if (sig_matches(o.cls, k)) { ++st.known_hits; ++st.known_by_sig[k]; return; }
             // a failure class that belongs to another property's oracle: counted, reported by that property's check
             for (auto &k : foreign) if (sig_matches(o.cls, k)) { ++st.labels["foreign_" + k]; return; }
+            if (!failing) failT0 = std::chrono::steady_clock::now();
             failing = true; haveFail = true; lastFail = c; lastOut = o;
             RC_FAIL(o.cls + " " + o.msg);
         }
